@@ -240,7 +240,7 @@ def encode_float(float_number: float | None) -> int:
     return encoded_int
 
 
-def decode_number(data_raw: int, bit_offset: int, bit_length: int, signed: bool, resolution: float, min_value: float, max_value: float) -> Optional[float]:
+def decode_number(data_raw: int, bit_offset: int, bit_length: int, signed: bool, resolution: float, min_value: float, max_value: float, offset: float = 0) -> Optional[float]:
     """
     The function follows specific decoding rules based on the bit length of the number:
     - For numbers using 2 or 3 bits, the maximum value indicates the field is not present (None is returned).
@@ -264,8 +264,9 @@ def decode_number(data_raw: int, bit_offset: int, bit_length: int, signed: bool,
         if number_int == max_positive_value:
             return None
 
-    # adjust resolution
+    # adjust resolution and the field's offset (value = raw * resolution + offset)
     number_int *= resolution
+    number_int += offset
 
     # the scaled value is a float for fractional resolutions: compare with a tolerance of
     # half a resolution step (or the float rounding error for very wide fields) so that
@@ -282,7 +283,8 @@ def encode_number(
     value: float | None,
     bit_length: int,
     signed: bool,
-    resolution: float
+    resolution: float,
+    offset: float = 0
 ) -> int:
     """
     Encodes a number into a bitfield within an integer.
@@ -301,7 +303,7 @@ def encode_number(
             return (1 << bit_length) - 1
 
     # Scale using resolution
-    number_int = int(round(value / resolution))
+    number_int = int(round((value - offset) / resolution))
 
     # Check bounds
     if signed:
